@@ -143,7 +143,7 @@ def gen_C16(rng, tier, cfg):
                     st["simd"] += 1
                     note(pl, al, SIMD_BYTES[t])
             # any slice length: clean panic instead of an access when the length is wrong
-            for op in (["read_le", "write_be"] if quick else SB_OPS):
+            for op in SB_OPS:
                 for ln in SIMDLEN_LENS:
                     seed = rng.below(1000)
                     for (pl, al) in [("back", 0), ("front", 0), ("front", rng.choice(ALIGNS_QUICK[1:]))]:
